@@ -31,9 +31,6 @@ type propInfo struct {
 	timeoutQ  time.Duration
 	timeoutT  time.Duration
 	needsE3   bool // inproc decides, E3 twin adds runs of the real binary
-	assume    []string
-	rule      string
-	maxShards int
 	envMatrix []string // real UPDATE_SNAPS values, one group of processes per value
 }
 
